@@ -42,6 +42,12 @@ pub fn generate(run_seed: u64, tier: Tier) -> Scenario {
         steps.push(Step::Op(Op::AppendMessage { thread: 0, size: rng.range(1, 3) as u32 }));
     }
     let read_bias = rng.chance(1, 2);
+    if rng.chance(1, 3) {
+        // a compaction job that was scheduled but never ran stays in flight for the whole history
+        steps.push(Step::Op(Op::AppendMessage { thread: 0, size: 1 }));
+        steps.push(Step::Op(Op::CompactionSchedule { thread: 0, stride: Some(1), max_new: None, block: None, execute: Some(false), dry_run: None }));
+        steps.push(Step::Op(Op::AppendMessage { thread: 0, size: 1 }));
+    }
     for _ in 0..n {
         match rng.below(20) {
             0 => steps.push(Step::Restart),
@@ -61,7 +67,7 @@ pub fn generate(run_seed: u64, tier: Tier) -> Scenario {
                         4 => Op::SelectionStatus { thread, limit: crate::world::gen_small(&mut rng) },
                         5 => Op::CompactionAuto { thread, stride: crate::world::gen_stride(&mut rng), max_new: crate::world::gen_small(&mut rng), dry_run: Some(true) },
                         6 => Op::CompactionSchedule { thread, stride: crate::world::gen_stride(&mut rng), max_new: crate::world::gen_small(&mut rng), block: crate::world::gen_bool(&mut rng), execute: crate::world::gen_bool(&mut rng), dry_run: Some(true) },
-                        _ => Op::UnknownThread { which: rng.below(90) as u32 },
+                        _ => Op::UnknownThread { which: rng.below(crate::world::UNKNOWN_THREAD_SPACE) as u32 },
                     };
                 }
                 steps.push(Step::Op(op));
